@@ -3,6 +3,7 @@ package main
 import (
 	"go/ast"
 	"go/token"
+	"strconv"
 )
 
 // c16DefaultWeight: the `weight := <lit>` short declaration of gateway.go createBackend: its literal, and
@@ -108,6 +109,10 @@ func factsC16() {
 	commaOk, eq := c16LabelMatch()
 	addBool("c16BlueGreenMatchCommaOk", commaOk, "backend.go buildBackendBlueGreenBalance: the pod's label is read ONLY by a comma-ok lookup `label, found := pod.Labels[dw.labelName]` in the init of an `if` whose condition is `found` (an absent label is not the empty value)")
 	addBool("c16BlueGreenMatchEq", eq, "backend.go buildBackendBlueGreenBalance: inside that `if found` the first statement is `if label == dw.labelValue` and the endpoint is appended to the group (dw.endpoints = append(dw.endpoints, ep)) only there")
+	mk, mt, su := c16BackendsMatch()
+	addStrList("c16BackendsMatchKeys", mk, "backends.go backendsMatch: index expressions on epmap (the set of endpoints is keyed by the whole Endpoint value)")
+	addStr("c16BackendsMatchMapKeyType", strconv.Quote(mt), "backends.go backendsMatch: key type of epmap")
+	addBool("c16ShrinkUsesBackendsMatch", su, "backends.go Shrink decides with backendsMatch")
 }
 
 // c16LabelMatch: the matching condition of buildBackendBlueGreenBalance (model: bgLabelMatch).
@@ -191,4 +196,43 @@ func c16PodLits() []string {
 		return true
 	})
 	return res
+}
+
+// c16BackendsMatch: pkg/haproxy/types/backends.go backendsMatch keeps the set of non-empty endpoints in a map:
+// the index expressions on `epmap` (source order; the code: `*ep` three times = the whole dereferenced Endpoint
+// value, Weight included), the key type of the `make(map[K]bool, ...)` it is created with, and whether Shrink
+// decides with backendsMatch. Model: keyWhole (Model/C16Hist).
+func c16BackendsMatch() (keys []string, keyType string, shrinkUses bool) {
+	fd := funcDecl("pkg/haproxy/types/backends.go", "backendsMatch")
+	ast.Inspect(fd.Body, func(x ast.Node) bool {
+		switch v := x.(type) {
+		case *ast.IndexExpr:
+			if id, ok := v.X.(*ast.Ident); ok && id.Name == "epmap" {
+				if st, ok := v.Index.(*ast.StarExpr); ok {
+					keys = append(keys, "*"+exprString(st.X))
+				} else {
+					keys = append(keys, exprString(v.Index))
+				}
+			}
+		case *ast.AssignStmt:
+			if len(v.Lhs) == 1 && len(v.Rhs) == 1 {
+				if id, ok := v.Lhs[0].(*ast.Ident); ok && id.Name == "epmap" {
+					if call, ok := v.Rhs[0].(*ast.CallExpr); ok && calleeName(call.Fun) == "make" && len(call.Args) >= 1 {
+						if mt, ok := call.Args[0].(*ast.MapType); ok {
+							keyType = exprString(mt.Key)
+						}
+					}
+				}
+			}
+		}
+		return true
+	})
+	sh := methodDecl("pkg/haproxy/types/backends.go", "Backends", "Shrink")
+	ast.Inspect(sh.Body, func(x ast.Node) bool {
+		if call, ok := x.(*ast.CallExpr); ok && calleeName(call.Fun) == "backendsMatch" {
+			shrinkUses = true
+		}
+		return true
+	})
+	return keys, keyType, shrinkUses
 }
